@@ -82,6 +82,7 @@ class Unit:
     order: int = 100
     verified_fns: list = field(default_factory=list)  # names Verus reports for this unit (default: derived)
     why_assumed: str = ""
+    calls: list = field(default_factory=list)         # callee units that name matching cannot resolve (trait methods, same-named methods)
     sig_override: str | None = None                    # for assumed units whose signature Verus cannot take
 
 
